@@ -8,7 +8,7 @@ A = "Assumptions A1-A8 of DESIGN.md 3.7 (callbacks pure w.r.t. the DBFT instance
 CLAIMED = {
 
  "C01": dict(technique="composite of guard/quorum/arith rules (path-condition algebra, affine normal forms)",
-   text="Decides that the four per-node mechanisms agreement rests on are intact on every path: acceptance behind an M-of-N current-view commit quorum, commit lock on ChangeView sends and view changes, view change behind an M-of-N ChangeView quorum, F=(N-1) div 3 and M=N-F; (pre)commits verified on store under the sender's key and re-validated when the proposal arrives — the latter is the known finding D6 on this tree (early commits are not re-validated; an equivocating primary can split two honest nodes), printed as KNOWN-FINDING. A structural necessary condition: breaking any of them breaks agreement.",
+   text="Decides that the four per-node mechanisms agreement rests on are intact on every path: acceptance behind an M-of-N current-view commit quorum, (pre)commit behind an M-of-N current-view preparation quorum containing the request, commit lock on ChangeView sends and view changes, view change behind an M-of-N ChangeView quorum, F=(N-1) div 3 and M=N-F; (pre)commits verified on store under the sender's key and re-validated when the proposal arrives — the latter is the known finding D6 on this tree (early commits are not re-validated; an equivocating primary can split two honest nodes), printed as KNOWN-FINDING. A structural necessary condition: breaking any of them breaks agreement.",
    note="Does NOT decide agreement itself (joint histories of several nodes under an adversarial scheduler, quorum intersection across nodes, amnesia restarts): no static argument in reach composes per-node path facts into that. " + A, ref="4/C01"),
  "C02": dict(technique="guard + quorum-atom analysis, ownership and provenance rules",
    text="ProcessBlock/ProcessPreBlock have one call site each, proven to be behind an M-of-N quorum counted over current-view entries of the per-validator table with all transactions present; stores into per-validator tables are keyed by the payload's own validator index; PrevHash/BlockIndex come from the ledger callbacks, Timestamp/Nonce/TransactionHashes only from the admitted proposal or the proposal builder; transactions filled in proposal order; every Verify call checks a payload's own signature under its sender's key.",
@@ -23,13 +23,13 @@ CLAIMED = {
    text="ProcessBlock only while the block-sent flag is unset, flag set after every successful callback and cleared only by the height reset; every effect reachable from the event entries is behind the not-BlockSent admission; every Context field is re-initialised on every view-0 path of the epoch writer except a reasoned carry-over table; every cached payload kind has a bucket that is replayed on every initialisation; state kept next to the Context (fields of DBFT itself) is the config, the mutex, the cache or a call-scoped flag that is false again at every exit of the function that sets it.",
    note="Not decided: retention of inboxes of skipped heights (memory only), influence through the application's own callbacks. " + A, ref="4/C05"),
  "C06": dict(technique="affine/modular normal forms of pure integer functions",
-   text="N, F, M and GetPrimaryIndex are proven to have the normal forms len(Validators), (N-1) div 3, N-F and ((h-v) mod N corrected into [0,N)) in signed arithmetic, for all N>=1, all heights and views on a 64-bit int; purity and single definition of PrimaryIndex. The quorum-intersection and rotation statements are arithmetic consequences of these forms.",
+   text="N, F, M and GetPrimaryIndex are proven to have the normal forms len(Validators), (N-1) div 3, N-F and ((h-v) mod N corrected into [0,N)) in signed arithmetic, for all N>=1, all heights and views on a 64-bit int; purity and single definition of PrimaryIndex. The quorum-intersection and rotation statements are arithmetic consequences of these forms. The uses are decided too: the acceptance, pre-acceptance, (pre)commit and view-change decisions compare their counts with M in normal form at every site, the recovery responder window is F+1, and the exported F-based predicates mean what they say.",
    note="32-bit builds are out of scope (int(uint32) is lossy there). " + A, ref="4/C06"),
  "C07": dict(technique="guard + quorum-atom analysis, flag typestate",
-   text="Anti-MEV phase order at every site: pre-commit paths and the optional callbacks only with the extension enabled; Commit under anti-MEV only with own PreCommit, M-of-N PreCommit quorum and processed pre-block; ProcessPreBlock once per height (flag discipline); header only after the pre-block; enabling predicate has the stated form.",
+   text="Anti-MEV phase order at every site: pre-commit paths and the optional callbacks only with the extension enabled; Commit under anti-MEV only with own PreCommit, M-of-N PreCommit quorum and processed pre-block; ProcessPreBlock once per height (flag discipline); header only after the pre-block; enabling predicate has the stated form; and each check function takes its step (pre-block processed and Commit sent once the node has its own PreCommit, M PreCommits and all transactions) on every exit not excused by a missing transaction/quorum/proposal, a failed callback or the node's role.",
    note="Not decided: behaviour with failing callbacks beyond 'flag not set', multi-node recovery interplay. " + A, ref="4/C07"),
  "C08": dict(technique="sibling agreement (cache writer / replayer)",
-   text="Decides only structural necessary conditions named by the anchors: every kind of early payload is kept (whatever the node's own state) and replayed on every initialisation, the cache is created only by Start and the entered height is removed; the header is built only after the pre-block; early (pre)commits are re-verified under their sender's key; the cache is looked up after the epoch write; mismatching early responses are purged when the proposal is stored; every initialisation arms the timer.",
+   text="Decides only structural necessary conditions named by the anchors: every kind of early payload is kept (whatever the node's own state) and replayed on every initialisation, the cache is created only by Start and the entered height is removed; the header is built only after the pre-block; early (pre)commits are re-verified under their sender's key; the cache is looked up after the epoch write; mismatching early responses are purged when the proposal is stored; every initialisation arms the timer; each of the four check functions takes its step whenever its preconditions hold, whatever the order in which they came to hold (no exit on a 'nothing to do' flag: M-PHASE-PROGRESS); no ChangeView for an idle backup on its first view-0 timeout and a forced timeout only while subscribed.",
    note="That all nodes decide in view 0 without timeouts depends on timer values and multi-node schedules: not applicable to static analysis and not claimed. " + A, ref="4/C08"),
  "C10": dict(technique="must-pass-through over enumerated paths with callee summaries, ownership/provenance of the timer epoch",
    text="Inductive argument with static obligations: epoch fields written only by the epoch writer; Timer.Reset only from one wrapper with the current (BlockIndex, ViewNumber); every initialiser path arms after the epoch write; every admitted timeout path re-arms; durations are non-negative by construction where measured quantities are subtracted and every duration handed to the timer is built from configured durations and the timer's own clock.",
@@ -39,7 +39,7 @@ CLAIMED = {
    note="Not decided: double deliveries, deliveries for a previous view's proposal beyond the rejection set, timing against the view timer. " + A, ref="4/C12"),
 
  "C09": dict(technique="sibling agreement (recovery builder/consumer), must-pass-through on enumerated paths",
-   text="Structural necessary conditions of recovery: the recovery message carries every evidence table (commits once the node has its own), the handler consumes every payload getter of the RecoveryMessage interface through OnReceive, LastChangeViewPayloads is refreshed on a view change from the table as it was before the reset cleared it, a ChangeView for a view not above the receiver's reaches the recovery-request handler, the responder window is F+1 consecutive indices after the requester modulo N, every admitted timeout says something or is an extension deferral and re-arms, a node with an own (pre)commit always answers a recovery request.",
+   text="Structural necessary conditions of recovery: the recovery message carries every evidence table (commits once the node has its own), the handler consumes every payload getter of the RecoveryMessage interface through OnReceive, LastChangeViewPayloads is refreshed on a view change from the table as it was before the reset cleared it, a ChangeView for a view not above the receiver's reaches the recovery-request handler, the responder window is F+1 consecutive indices after the requester modulo N, every admitted timeout says something or is an extension deferral and re-arms, a node with an own (pre)commit always answers a recovery request, each check function takes its step whenever its preconditions hold (M-PHASE-PROGRESS).",
    note="Progress, bounds on the deciding view, partitions and restarts need multi-node timed executions: not applicable to static analysis and not claimed. " + A, ref="4/C09"),
  "C11": dict(technique="effect-free-prefix guard rule, index provenance with backward demand, optional-callback guards, stale-index analysis",
    text="In each handler every effect site is behind that handler's admission condition (so inadmissible and duplicate inputs reach no effect); every index into a per-validator table is a range key, an admitted sender index, MyIndex under MyIndex>=0 or the primary index; optional callbacks only under their enabling fact; stored slots dereferenced only when non-nil; no stale derived index; every integer division has a divisor that cannot be zero (constant, array length, validator count under the documented contract, or a Config field refused by checkConfig when zero) and New hands out an instance only after checkConfig returned nil.",
@@ -52,13 +52,13 @@ CLAIMED = {
    note="Every timing clause (minimum spacing of proposals, 'only once the maximum elapsed', promptness) depends on numeric relations between durations, RTT and the clock: not applicable and not claimed. " + A, ref="4/C16"),
 
  "C17": dict(technique="client typestate / provenance rules on the example program",
-   text="The simulation's event loop re-initialises the library after a processed block (from the loop, under a block-processed condition, not from inside the ProcessBlock callback); ledger callbacks return what ProcessBlock stores; OnTimeout gets the timer's own epoch; the timer channel is re-read each iteration; every required option is supplied; the reference block/payload constructors receive the context fields in their roles; plus the library/timer preconditions its liveness relies on (per-view state dropped on every view change, immediate-expiry channel drained before a send, timeouts and initialisations re-arm).",
+   text="The simulation's event loop re-initialises the library after a processed block (from the loop, under a block-processed condition, not from inside the ProcessBlock callback); ledger callbacks return what ProcessBlock stores; OnTimeout gets the timer's own epoch; the timer channel is re-read each iteration; every required option is supplied; the reference block/payload constructors receive the context fields in their roles; plus the library/timer preconditions its liveness relies on (per-view state dropped on every view change, immediate-expiry channel drained before a send, timeouts and initialisations re-arm, every table index proven in range and nothing signed or broadcast on a watch-only node - the example runs watch-only nodes in the same process -, every check function takes its step when its preconditions hold).",
    note="Goroutine schedules, block interval and agreement between simulated nodes are run-time behaviour of a concurrent program: not applicable and not claimed. " + A, ref="4/C17"),
  "C18": dict(technique="path enumeration with symbolic field values on package timer (provenance, must-pass-through, affine form)",
    text="Structural clauses of the bundled timer (private field roles are derived from Reset/Height/View and the field types on every run): Height()/View() report what Reset stored from its parameters; Reset stores start, duration, height, view on every path; C() selects the channel by whether a runtime timer is armed; sends on the immediate channel are drained first and only for a zero duration; Extend accumulates unconditionally, re-arms for total-elapsed from the stored start under total>elapsed and never leaves a pending expiry disarmed; NewTimer only after stop.",
    note="'Never early', 'within tolerance' and 'stale expiry never delivered' are real-time properties of time.Timer and channel races: not applicable to static analysis and not claimed. " + A, ref="4/C18"),
  "C19": dict(technique="encoder/decoder field agreement on enumerated paths, gob exported-field rule, constructor role tables, reconstruction agreement",
-   text="For every type with EncodeBinary/DecodeBinary each wire field is read by the encoder and assigned by the decoder on every successful path; gob structs have only exported fields; decoders propagate every error; the recovery message packs every kind and each Get* reconstruction uses the kind, body type and list of its arm and copies every body field, stamping the rebuilt proposal with the primary index; Payload.Hash is Hash256 of the unsigned encoding; block Hash/Sign/Verify feed GetHashData without the signature; constructors use every parameter in its role; ECDSA Sign/Verify digest alike; Merkle parents hash left||right.",
+   text="For every type with EncodeBinary/DecodeBinary each wire field is read by the encoder and assigned by the decoder on every successful path; gob structs have only exported fields; decoders propagate every error; the recovery message packs every kind and each Get* reconstruction uses the kind, body type and list of its arm and copies every body field, stamping the rebuilt proposal with the primary index; Payload.Hash is Hash256 of the unsigned encoding (and does not memoise while a body type can still be mutated through its interface); block Hash/Sign/Verify feed GetHashData without the signature; constructors use every parameter in its role; ECDSA Sign/Verify digest alike; Merkle parents hash left||right.",
    note="Collision resistance, ECDSA soundness, gob's robustness on arbitrary bytes, the Merkle odd-level duplication ambiguity and value-dependent panics on short inputs are not decided. " + A, ref="4/C19"),
  "C20": dict(technique="syntactic type inference and guard discipline over the SANY semantic tree (no model checking)",
    text="TypeOK is shown inductive for every MaxView and fault set by typing Init and every primed assignment reachable from Next against the shapes TypeOK declares (130 assignments in the five specs); InvFaultNodesCount follows from the membership guards on bad/dead and the ASSUME; for the no-fork invariant only the presence of the quorum guards, the commit lock (where the spec has one; decided by evaluating the action's guard with the node in the locked state) and F/M definitions is checked; every action is linked into Next and launch-file invariants exist.",
@@ -70,7 +70,7 @@ CLAIMED = {
    ref="4/C13"),
  "C14": dict(
    technique="who-may-call (types.Func identity) + value provenance of time.Time",
-   text="O-NO-WALLCLOCK: no function of package dbft references time.Now/Since/Until/After/AfterFunc/Tick/NewTimer/NewTicker/Sleep (calls or method values). P-INSTANT: every time.Time stored in state and every UnixNano() that becomes a timestamp originates in Config.Timer.Now(), and instants are combined only by shift-equivariant operations. A-TIMESTAMP / O-NO-DURATION-SRC: the proposal timestamp and every duration given to the timer are built from the injected clock and configured durations only.",
+   text="O-NO-WALLCLOCK: no function of package dbft references time.Now/Since/Until/After/AfterFunc/Tick/NewTimer/NewTicker/Sleep (calls or method values). P-INSTANT: every time.Time stored in state and every UnixNano() that becomes a timestamp originates in Config.Timer.Now(), and instants are combined only by shift-equivariant operations; O-NO-WALLCLOCK is transitive over the module's own packages; P-INSTANT-SET: a stored instant is used only where it is known to have been recorded (the zero time.Time is an absolute date - defect D8, fixed). A-TIMESTAMP / O-NO-DURATION-SRC: the proposal timestamp and every duration given to the timer are built from the injected clock and configured durations only.",
    note="Decides that time enters only through the injected timer (the structural cause of clock-shift invariance). The equality of two whole shifted runs is a consequence and is not re-established by running anything; the random nonce is not time. " + A,
    ref="4/C14"),
 }
